@@ -1,8 +1,8 @@
 SPECIFICATION LSpec
 CONSTANTS
-  MaxLoss = 1
+  MaxLoss = 2
   MaxDup = 1
-  MaxTimeouts = 2
+  MaxTimeouts = 4
 INVARIANT RetryBound
 INVARIANT PoweredOnlyWhenTuned
 INVARIANT QueueIsScriptSuffix
